@@ -65,7 +65,9 @@ class ChainGen:
             return ("leaf", r.choice(leaves_avail))
         if r.random() < 0.6:
             return ("tup", [self.rand_shape(leaves_avail, d - 1) for _ in range(r.randrange(1, 4))], r.choice(["tuple", "tuple", "list"]))
-        keys = r.sample(["a", "k", "c", "pt", "jets"], r.randrange(1, 4))
+        # string keys (read back by attribute or subscript) and integer keys (subscript only)
+        pool = ["a", "k", "c", "pt", "jets"] if r.random() < 0.7 else ["a", 0, 1, "k", 2]
+        keys = r.sample(pool, r.randrange(1, 4))
         return ("dict", [(k, self.rand_shape(leaves_avail, d - 1)) for k in keys])
 
     def paths(self, base: ast.expr, shape):
@@ -75,10 +77,14 @@ class ChainGen:
         out = []
         if shape[0] == "tup":
             for i, s in enumerate(shape[1]):
-                out += self.paths(gen.sub(copy.deepcopy(base), C(i)), s)
+                if self.r.random() < 0.15:      # the same component through a negative literal index
+                    idx = ast.UnaryOp(op=ast.USub(), operand=C(len(shape[1]) - i))
+                else:
+                    idx = C(i)
+                out += self.paths(gen.sub(copy.deepcopy(base), idx), s)
         else:
             for k, s in shape[1]:
-                proj = A(copy.deepcopy(base), k) if self.r.random() < 0.5 else gen.sub(copy.deepcopy(base), C(k))
+                proj = A(copy.deepcopy(base), k) if isinstance(k, str) and self.r.random() < 0.5 else gen.sub(copy.deepcopy(base), C(k))
                 out += self.paths(proj, s)
         return out
 
@@ -218,7 +224,8 @@ def pkg_nodes(e: ast.AST):
     for n in ast.walk(e):
         if isinstance(n, (ast.Tuple, ast.List, ast.Dict)):
             out.append(type(n).__name__)
-        elif isinstance(n, ast.Subscript) and isinstance(n.slice, ast.Constant):
+        elif isinstance(n, ast.Subscript) and (isinstance(n.slice, ast.Constant) or (
+                isinstance(n.slice, ast.UnaryOp) and isinstance(n.slice.op, ast.USub) and isinstance(n.slice.operand, ast.Constant))):
             out.append("Subscript[const]")
     return out
 
@@ -298,6 +305,8 @@ PROBES = [
     ("Select(Select(ds, lambda e: (e.jets, e.met)), lambda t: t[0].Select(lambda j: j.pt + t[1]))", ("leaf", "int")),
     ("Select(Select(ds, lambda e: (e.jets, e.met)), lambda t: t[0].Select(lambda j: (j.pt, t[1])).Select(lambda q: q[0]))", ("leaf", "int")),
     ("Select(Select(Select(ds, lambda e: (e.a, e.b)), lambda e: (e[1], e[0])), lambda e: e[0] - e[1])", ("leaf", "int")),
+    ("Select(Select(ds, lambda e: {0: e.jets, 1: e.met}), lambda d: Count(d[0]) + d[1])", ("leaf", "int")),
+    ("Select(Select(ds, lambda e: ({'jets': e.jets, 1: e.met}, e.a)), lambda t: t[0][1] + t[-1] + Count(t[0]['jets']))", ("leaf", "int")),
     ("ds.Select(lambda e: (e.jets, e.met)).SelectMany(lambda t: t[0].Select(lambda j: (j, t[1]))).Where(lambda p: p[0].pt > p[1]).Select(lambda p: p[0].pt)", ("leaf", "int")),
     ("SelectMany(SelectMany(Select(ds, lambda e: (e.jets, e.a)), lambda t: Select(t[0], lambda j: (j.trk, t[1]))), lambda u: Select(u[0], lambda k: k.pt + u[1]))", ("leaf", "int")),
 ]
